@@ -7,14 +7,14 @@
 //	code -> spec: the real decoder / encoder is executed on Go-generated
 //	              inputs and (input, real outcome) records are written for
 //	              tla/Trace_Codec.tla, which judges them with Parse/Encode
-//	              (modes dgshort, dgrand, dglist, pkrand, short)
+//	              (modes dgshort, dgrand, dglist, pkrand, pklist, short)
 //
 // A panic of the code under test is caught per input (the codec consists of
 // pure functions) and recorded as outcome 1.
 //
 // Environment:
 //
-//	VERIF_MODE      dgvec | pkvec | dgshort | dgrand | dglist | pkrand | short
+//	VERIF_MODE      dgvec | pkvec | dgshort | dgrand | dglist | pkrand | pklist | short
 //	VERIF_IN        input file (vectors NDJSON / class list JSON / datagram list NDJSON)
 //	VERIF_OUT       output NDJSON
 //	VERIF_PROGRESS  id of the input being executed (crash attribution)
